@@ -548,8 +548,6 @@ func c03AcceptCheckKey(rep *Report, fixedKey string, src []byte, o int, want str
 				// a ';' that stands on the line of a statement it does not belong to (after a block, a declaration, a
 				// labelled / if / loop statement, another ';') is an EmptyStatement; the tail of parseStmt swallows it
 				rep.Violate("c03-tree:empty-statement-same-line", fmt.Sprintf("an EmptyStatement `;` on the line of the preceding statement is dropped: %q: got %s want %s", src, got, want), map[string]interface{}{"src": string(src), "opts": o, "got": got, "expected": want})
-			} else if c03ExportDeclSemicolonOnly(src, o, got, want) {
-				rep.Violate("c03-tree:empty-statement-after-export-declaration", fmt.Sprintf("an EmptyStatement `;` after an exported function / class declaration is dropped: %q: got %s want %s", src, got, want), map[string]interface{}{"src": string(src), "opts": o, "got": got, "expected": want})
 			} else if fixedKey != "" {
 				rep.Violate(fixedKey, fmt.Sprintf("wrong tree for %q: got %s want %s", src, got, want), map[string]interface{}{"src": string(src), "opts": o, "got": got, "expected": want})
 			} else {
@@ -570,43 +568,6 @@ func c03SameLineSemicolonOnly(src []byte, o int, got, want string) bool {
 	}
 	ast, err, pan := c03ParseJS(bytes.ReplaceAll(src, []byte(";"), []byte("\n;")), o)
 	return pan == nil && err == nil && c03AstString(ast) == want
-}
-
-// c03ExportDeclSemicolonOnly: the remaining difference is an EmptyStatement `;` after `export function ...{}`,
-// `export class ...{}` or `export default function/class ...{}`: those are declarations, not terminated by ';', but
-// the tail of parseStmt takes a ';' after every ExportStmt (on the same line and, since 5e610dc, on the next line too).
-func c03ExportDeclSemicolonOnly(src []byte, o int, got, want string) bool {
-	if c03NoEmpty(got) != c03NoEmpty(want) || strings.Count(got, "Stmt()") >= strings.Count(want, "Stmt()") {
-		return false
-	}
-	ast, err, pan := c03ParseJS(bytes.ReplaceAll(src, []byte(";"), []byte("\n;")), o)
-	if pan != nil || err != nil {
-		return false
-	}
-	// the top-level items of want, without the first Stmt() after each export declaration
-	var items []string
-	depth, start := 0, 0
-	for i := 0; i <= len(want); i++ {
-		if i == len(want) || want[i] == ' ' && depth == 0 {
-			items = append(items, want[start:i])
-			start = i + 1
-		} else if want[i] == '(' {
-			depth++
-		} else if want[i] == ')' {
-			depth--
-		}
-	}
-	var kept []string
-	dropped := false
-	for i, it := range items {
-		if it == "Stmt()" && i > 0 && (strings.HasPrefix(items[i-1], "Stmt(export Decl(function") || strings.HasPrefix(items[i-1], "Stmt(export Decl(async function") ||
-			strings.HasPrefix(items[i-1], "Stmt(export Decl(class") || strings.HasPrefix(items[i-1], "Stmt(export default Decl(")) {
-			dropped = true
-			continue
-		}
-		kept = append(kept, it)
-	}
-	return dropped && c03AstString(ast) == strings.Join(kept, " ")
 }
 
 // c03FixedPrograms: programs whose tree was worked out by hand from the grammar (regular expressions vs division,
@@ -693,12 +654,22 @@ func c03Fixed(rep *Report) {
 		c03AcceptCheck(rep, []byte("if(a);;b"), o, "Stmt(if a Stmt()) Stmt() Stmt(b)", "fixed", true)
 		c03AcceptCheck(rep, []byte("function f(){};a"), o, "Decl(function f Params() Stmt({ })) Stmt() Stmt(a)", "fixed", true)
 		if o&2 == 0 { // module items are not allowed with Options.Inline
-			// after an exported declaration also on the next line (known finding; `export {a} <newline> ;` and
-			// `export default a <newline> ;` are terminated by the ';')
+			// an exported function / class declaration is not terminated by ';': the ';' is an EmptyStatement on either
+			// line (dropped before def2553); the other exports and import() / import.meta statements take their ';' on any line
+			c03AcceptCheck(rep, []byte("export function f(){}\n;"), o, "Stmt(export Decl(function f Params() Stmt({ }))) Stmt()", "fixed", true)
+			c03AcceptCheck(rep, []byte("export function f(){};"), o, "Stmt(export Decl(function f Params() Stmt({ }))) Stmt()", "fixed", true)
 			c03AcceptCheck(rep, []byte("export function f(){}\n;a"), o, "Stmt(export Decl(function f Params() Stmt({ }))) Stmt() Stmt(a)", "fixed", true)
-			c03AcceptCheck(rep, []byte("export default class{}\n;"), o, "Stmt(export default Decl(class)) Stmt()", "fixed", true)
-			c03AcceptCheck(rep, []byte("var a;export {a}\n;b"), o, "Decl(var Binding(a)) Stmt(export { a }) Stmt(b)", "fixed", true)
+			c03AcceptCheck(rep, []byte("export async function f(){};a"), o, "Stmt(export Decl(async function f Params() Stmt({ }))) Stmt() Stmt(a)", "fixed", true)
+			c03AcceptCheck(rep, []byte("export class A{}\n;a"), o, "Stmt(export Decl(class A)) Stmt() Stmt(a)", "fixed", true)
+			c03AcceptCheck(rep, []byte("export default class{}\n;a"), o, "Stmt(export default Decl(class)) Stmt() Stmt(a)", "fixed", true)
+			c03AcceptCheck(rep, []byte("export default function(){};a"), o, "Stmt(export default Decl(function Params() Stmt({ }))) Stmt() Stmt(a)", "fixed", true)
 			c03AcceptCheck(rep, []byte("export default a\n;b"), o, "Stmt(export default a) Stmt(b)", "fixed", true)
+			c03AcceptCheck(rep, []byte("export var a\n;b"), o, "Stmt(export Decl(var Binding(a))) Stmt(b)", "fixed", true)
+			c03AcceptCheck(rep, []byte("var a;export {a}\n;b"), o, "Decl(var Binding(a)) Stmt(export { a }) Stmt(b)", "fixed", true)
+			c03AcceptCheck(rep, []byte("export * from 'm'\n;a"), o, "Stmt(export * from 'm') Stmt(a)", "fixed", true)
+			c03AcceptCheck(rep, []byte("import 'm'\n;a"), o, "Stmt(import 'm') Stmt(a)", "fixed", true)
+			c03AcceptCheck(rep, []byte("import('x')\n;b"), o, "Stmt(import('x')) Stmt(b)", "fixed", true)
+			c03AcceptCheck(rep, []byte("import.meta\n;b"), o, "Stmt(import.meta) Stmt(b)", "fixed", true)
 		}
 		// `async` followed by a line break is not the async modifier: a method / field named async (5ec8a83)
 		c03AcceptCheck(rep, []byte("class A{static async\n(a){}}"), o, "Decl(class A Method(static async Params(Binding(a)) Stmt({ })))", "fixed", true)
